@@ -42,11 +42,74 @@ def run(rep, tier):
         # a later expression over a declared variable sees the value as written: the evaluator's operators build new values
         common.guarded(rep, "C03.3", c03.c03_3, rep, ix, M, cc, br)
     common.guarded(rep, "C05.6", c05_6, rep, ix)
+    common.guarded(rep, "C05.7", c05_7, rep, ix)
+    common.guarded(rep, "C05.8", c05_8, rep, ix)
     aliasing_lint(rep, ix)
     shared_tables(rep, ix, M.G)
     # an initialiser is the text the caller wrote: nothing rewrites the script between the API and the lexer
     from . import c10
     common.guarded(rep, "C10.2", c10.c10_2, rep, ix)
+
+
+def c05_7(rep, ix):
+    R = "C05.7"
+    rep.rule(R, "the variables of the loaded program are the entries of the variable table as they stand when the program ends: published by update / copy of the table, or entry by "
+                "entry under the table's own key with the table's own value (no conversion on the way: a 1x1 array stays an array, a NumPy scalar stays what the cast made it)", floor=1)
+    e = ix.func("listener.BlackbirdListener.exitProgram")
+    fn = e.node
+    n = 0
+    for c in walk_shallow(fn):
+        if isinstance(c, ast.Call) and isinstance(c.func, ast.Attribute) and c.func.attr == "update" and u(c.func.value).endswith("._var") and len(c.args) == 1:
+            n += 1
+            a = " ".join(u(c.args[0]).split())
+            okp = a in ("_VAR", "dict(_VAR)", "_VAR.copy()", "copy.copy(_VAR)", "{**_VAR}")
+            if not okp and isinstance(c.args[0], ast.DictComp) and len(c.args[0].generators) == 1 and " ".join(u(c.args[0].generators[0].iter).split()) == "_VAR.items()" \
+                    and isinstance(c.args[0].generators[0].target, ast.Tuple) and len(c.args[0].generators[0].target.elts) == 2:
+                k_, v_ = (u(x) for x in c.args[0].generators[0].target.elts)
+                okp = u(c.args[0].key) == k_ and u(c.args[0].value) == v_
+            rep.check(okp, R, ix.site(e, c), "`%s` publishes the table's entries as they are" % " ".join(u(c).split())[:70], "publishes `%s`" % a[:70], key="publish|update")
+    for l in walk_shallow(fn):
+        if isinstance(l, ast.For) and " ".join(u(l.iter).split()) == "_VAR.items()" and isinstance(l.target, ast.Tuple) and len(l.target.elts) == 2:
+            k_, v_ = (u(x) for x in l.target.elts)
+            stores = [s_ for s_ in ast.walk(l) if isinstance(s_, ast.Assign) and len(s_.targets) == 1 and isinstance(s_.targets[0], ast.Subscript) and u(s_.targets[0].value).endswith("._var")]
+            for s_ in stores:
+                n += 1
+                val = s_.value
+                # the value stored: the loop's own value, possibly through a local bound to it - but never rebound to a converted value
+                name = val.id if isinstance(val, ast.Name) else None
+                binds = [x for x in ast.walk(l) if isinstance(x, (ast.Assign, ast.AugAssign)) and name is not None and any(
+                    isinstance(y, ast.Name) and y.id == name and isinstance(y.ctx, ast.Store) for t_ in (x.targets if isinstance(x, ast.Assign) else [x.target]) for y in ast.walk(t_))]
+                plain = name == v_ and not binds
+                via = name is not None and name != v_ and len(binds) >= 1 and all(isinstance(b_, ast.Assign) and isinstance(b_.value, ast.Name) and b_.value.id == v_ for b_ in binds)
+                conv = [b_ for b_ in binds if not (isinstance(b_, ast.Assign) and isinstance(b_.value, ast.Name) and b_.value.id == v_)]
+                rep.check((plain or via) and u(s_.targets[0].slice) == k_, R, ix.site(e, s_), "`%s` stores the table's own value under the table's own key" % " ".join(u(s_).split())[:60],
+                          ("the value is converted first: `%s`" % " ".join(u(conv[0]).split())[:60]) if conv else "stores `%s` under `%s`" % (u(val), u(s_.targets[0].slice)), key="publish|entry")
+    if not n:
+        raise Inconclusive("exitProgram: publication of the variable table not recognised")
+
+
+def c05_8(rep, ix):
+    R = "C05.8"
+    rep.rule(R, "every concrete entry of an array is the value of evaluating its element expression: whatever is added to the list of entries is `_expression(<element>)` "
+                "(no second reader of the element's text - float('nan'), int('1_000') and the like read texts the grammar gives another meaning)", floor=1)
+    f = ix.func(ARRAY)
+    fn = f.node
+    n = 0
+    for c in walk_shallow(fn):
+        if isinstance(c, ast.Call) and isinstance(c.func, ast.Attribute) and u(c.func.value) == "value" and c.func.attr in ("append", "extend", "insert") and c.args:
+            n += 1
+            a = c.args[-1]
+            st = stmt_of(fn, c)
+            t = resolved_text(fn, a, st) if st is not None else u(a)
+            okv = c.func.attr in ("append", "insert") and t.startswith("_expression(")
+            if c.func.attr == "extend" and isinstance(a, (ast.ListComp, ast.GeneratorExp)):
+                okv = u(a.elt).startswith("_expression(")
+            rep.check(okv, R, ix.site(f, c), "`%s` adds the evaluated element" % " ".join(u(c).split())[:60], "adds `%s`" % t[:60], key="entry|" + " ".join(u(c).split())[:50])
+        if isinstance(c, ast.AugAssign) and u(c.target) == "value":
+            n += 1
+            rep.bad(R, ix.site(f, c), "`%s` adds the evaluated element" % " ".join(u(c).split())[:60], key="entry|" + " ".join(u(c).split())[:50])
+    if not n:
+        raise Inconclusive("exitArrayvar: no statement adds entries to the list handed to np.array")
 
 
 def c05_6(rep, ix):
@@ -203,10 +266,21 @@ def c05_4(rep, ix):
     rows = u(rs.args[0]) if okr and rows_len is None else None
     # the row counter counts arrayrow children
     rowloop = [l for l in walk_shallow(fn) if isinstance(l, ast.For) and "arrayval().getChildren()" in u(l.iter)]
+    rows_only = False
+    if not rowloop:
+        # the rows themselves are iterated (the parser's list of arrayrow children): ctx.arrayval().row_list / .arrayrow()
+        for l in walk_shallow(fn):
+            if isinstance(l, ast.For):
+                it_ = resolved_text(fn, l.iter, l)
+                if it_ in ("ctx.arrayval().row_list", "ctx.arrayval().arrayrow()"):
+                    rowloop.append(l)
+                    rows_only = True
     if len(rowloop) != 1:
         raise Inconclusive("exitArrayvar: row loop not recognised")
     rl = rowloop[0]
     rowif = [s for s in rl.body if isinstance(s, ast.If) and "ArrayrowContext" in u(s.test)]
+    if rows_only and not rowif:
+        rowif = [ast.If(test=ast.Constant(value=True), body=list(rl.body), orelse=[])]
     if len(rowif) != 1:
         raise Inconclusive("exitArrayvar: ArrayrowContext filter not recognised")
     # `if isinstance(row, ArrayrowContext): <body>`  or the guard clause  `if not isinstance(row, ArrayrowContext): continue` + <rest of the loop body>
@@ -223,7 +297,10 @@ def c05_4(rep, ix):
         rep.check(len(inc) == 1 and not other, R, ix.site(f, rl), "the list whose length is the row count receives one entry per arrayrow child", key="row count")
     else:
         inc = [s for s in body if isinstance(s, ast.AugAssign) and u(s.target) == rows and isinstance(s.op, ast.Add) and u(s.value) == "1"]
-        rep.check(len(inc) == 1, R, ix.site(f, rl), "the row count is incremented once per arrayrow child", key="row count")
+        # ... or it is the length of the very collection of rows that is iterated
+        by_len = [n for n in walk_shallow(fn) if isinstance(n, ast.Assign) and len(n.targets) == 1 and u(n.targets[0]) == rows and isinstance(n.value, ast.Call) and u(n.value.func) == "len"
+                  and len(n.value.args) == 1 and rows_only and resolved_text(fn, n.value.args[0], n) == resolved_text(fn, rl.iter, rl)]
+        rep.check(len(inc) == 1 or (not inc and len(by_len) == 1), R, ix.site(f, rl), "the row count is incremented once per arrayrow child", key="row count")
     # guard idioms
     guard = None
     # (a) a set/list of per-row lengths filled inside the row loop, tested after it
